@@ -248,3 +248,50 @@ func Harness_C02_table_seek_small() {
 	VerifAssert(err == nil && !ok, "suffix-extra")
 	VerifCover("done")
 }
+
+// Harness_C02_table_seek_biglog: SeekLog through the log index onto log blocks that deflate cannot shrink and that fill the block size to within a few bytes (the reader has to fetch more than the block size, whichever way it got to the block).
+// bounds: 5 reflog entries a..e, one per log block (BlockSize 256 x Unaligned), each with a message of L arbitrary bytes, L sweeping 24 values up to the largest that fits; all message and hash bytes symbolic and unconstrained (stored-block model; the native replay uses incompressible data); SeekLog for each of the 5 names and for a name beyond the last
+// covers: done, rejected
+func Harness_C02_table_seek_biglog() {
+	cfg := Config{BlockSize: 256, ExactLogMessage: true, Unaligned: VerifChoose(2) == 1}
+	L := 140 + VerifIntRange(0, 23)
+	var logs []*LogRecord
+	for i := 0; i < 5; i++ {
+		// hashes arbitrary too: a run of equal bytes would let the real deflate shrink the block
+		l := &LogRecord{RefName: string([]byte{'a' + byte(i)}), UpdateIndex: 1, Time: uint64(5 + i), New: symBytes(20), Old: symBytes(20), Name: "n", Email: "e"}
+		l.Message = symString(L)
+		logs = append(logs, l)
+	}
+	data, ok := writeTable(cfg, 1, 1, nil, logs)
+	if !ok {
+		VerifCover("rejected")
+		return
+	}
+	rd, err := NewReader(&ByteBlockSource{data}, "t")
+	VerifAssert(err == nil, "newreader")
+	if err != nil {
+		return
+	}
+	k := VerifChoose(6)
+	name := string([]byte{'a' + byte(k)})
+	it, err := rd.SeekLog(name, math.MaxUint64)
+	VerifAssert(err == nil, "seek-err")
+	if err != nil {
+		return
+	}
+	for i := k; i < 5; i++ {
+		var got LogRecord
+		ok, err := it.NextLog(&got)
+		VerifAssert(err == nil, "suffix-err")
+		VerifAssert(ok, "suffix-short")
+		if !ok || err != nil {
+			return
+		}
+		VerifAssert(got.RefName == logs[i].RefName && got.Time == logs[i].Time, "suffix-key")
+		VerifAssert(got.Message == logs[i].Message, "suffix-payload")
+	}
+	var got LogRecord
+	ok, err = it.NextLog(&got)
+	VerifAssert(err == nil && !ok, "suffix-extra")
+	VerifCover("done")
+}
